@@ -56,6 +56,14 @@ func sliceGuarded(fn *ssa.Function, ia *core.IA, sl *ssa.Slice) (bool, string) {
 		if len(good) > 0 && core.OnlyBehind(fn, sl, good) {
 			return true, ""
 		}
+		// the strict spelling len(x) > b implies it too
+		strict, _ := core.AtomEdges(fn, lenOfAtom(x, func(y ssa.Value) bool { return core.SameExpr(y, b) }, ">"))
+		for e := range strict {
+			good[e] = true
+		}
+		if len(good) > 0 && core.OnlyBehind(fn, sl, good) {
+			return true, ""
+		}
 		return false, fmt.Sprintf("%s bound may reach %s while len is only known to be >= %d and no guard len(x) >= bound dominates the slicing", what, fmtBound(bi.Hi), lenI.Lo)
 	}
 	if ok, why := check(sl.High, "upper"); !ok {
